@@ -145,6 +145,10 @@ def mako_source(prog, sp):
             if style == "inline":
                 assert len(lines) == 1
                 out.append("<% " + lines[0] + " %>" + nl)
+            elif style == "inline-cont":
+                # the line break behind the block is consumed by a backslash: nothing follows the block on its line
+                assert len(lines) == 1
+                out.append("<% " + lines[0] + " %>\\" + nl)
             else:
                 j = cnt["pb"]
                 cnt["pb"] += 1
@@ -230,7 +234,7 @@ def count_lines(prog):
                 body(s[2])
             elif k == "C":
                 c[0] += 1
-            elif k == "Py" and s[2] != "inline":
+            elif k == "Py" and s[2] not in ("inline", "inline-cont"):
                 c[1] += 1
             elif k == "Block":
                 body(s[1])
@@ -313,7 +317,8 @@ def ref_source(prog, enable_loop, nl="\n"):
                     L.append(l[1:])  # verbatim: inside a string literal or a bracket
                 elif l.strip():
                     emit(ind, l)
-            emit(ind, "__o(%r)" % nl)
+            if s[2] != "inline-cont":
+                emit(ind, "__o(%r)" % nl)
         elif k == "C":
             emit(ind, "# " + s[1])
         elif k == "Doc":
